@@ -22,7 +22,8 @@ class LocalSystem(System):
         self.kinds[self.me] = kind
         self.dep = [[z3.Bool('dep_%d_%d' % (i, j)) for j in range(i)] for i in range(self.n)]
         self.root = [z3.Bool('root_%d' % i) for i in range(self.n)]
-        am = ActorModel(prog, kind, self.me, self.n, watch, dep_syms=self.dep[self.me]).build()
+        self.dup = z3.Bool('dupdep_%d' % self.me)
+        am = ActorModel(prog, kind, self.me, self.n, watch, dep_syms=self.dep[self.me], dup_sym=self.dup).build()
         self.actors = [None] * self.n
         self.actors[self.me] = am
         self.bfs = {self.me: BuildFuture(prog, am)} if kind == 'build' else {}
@@ -63,6 +64,7 @@ class LocalSystem(System):
         for j in range(self.me):
             d['dep_%d_%d' % (self.me, j)] = self.dep[self.me][j]
         d['watcher_fails#0'] = F
+        d['dupdep_%d' % self.me] = self.dup
         return d
 
     def _relay(self, S, label, flag, obs, g):
@@ -194,6 +196,12 @@ class LocalMonitor:
         g['wrong_actual'] = F
         g['reports_on_another_target'] = F   # an Ok / Invalidated whose subject is not the emitting target itself
         g['proc_left_at_exit'] = F    # the actor returned while a process it spawned was still running (nobody is left to stop it)
+        g['attempted'] = F            # decided to start / tried to spawn at least once
+        g['idle_although_ready'] = F  # C04 (state predicate, not sticky): one-shot, the target is wanted, every dependency's last word is Ok, and it has neither started nor acknowledged
+        g['withheld_request'] = F     # C17: the target is wanted, and a declared dependency has not been asked for anything (its start waits for somebody else's message)
+        for d in range(me):
+            for kind in ('Build', 'Service'):
+                g['reqsent.%d.%s' % (d, kind)] = F
         g['env_inconsistent'] = F     # the environment changed the `actual` flag of a (dependency, kind) between two Ok messages
         for d in range(me):
             for kind in ('Build', 'Service'):
@@ -296,6 +304,34 @@ class LocalMonitor:
                 for key, (gg, fl) in obs.ev.get('emit', {}).items():
                     if key[0] == me and key[2] == ('Ok', kind, mename) and fl is not None:
                         g2['wrong_actual'] = z3.Or(g2['wrong_actual'], z3.And(gg, fl != want))
+        # C17: once somebody wants the target, every declared dependency has been asked (the actor is idle between steps, so
+        # a dependency that has not been asked by now can only be asked in reaction to a message from somebody else)
+        own_kinds = {'build': ('Build',), 'service': ('Service',), 'aggregate': ('Build', 'Service')}[kindme]
+        for kind in own_kinds:
+            wanted = z3.Or([g2['seen.%s.%s' % (kind, r)] for r in reqs])
+            for d in range(me):
+                sent = {}
+                for kk in ('Build', 'Service'):
+                    rq = obs.get('emit', (me, 't%d' % d, ('Requested', kk, mename)))
+                    un = obs.get('emit', (me, 't%d' % d, ('Unrequested', kk, mename)))
+                    sent[kk] = z3.If(rq, T, z3.If(un, F, g['reqsent.%d.%s' % (d, kk)]))
+                    g2['reqsent.%d.%s' % (d, kk)] = sent[kk]
+                asked = sent[kind] if kindme == 'aggregate' else z3.Or(sent['Build'], sent['Service'])
+                g2['withheld_request'] = z3.Or(g2['withheld_request'], z3.And(S2['alive.%d' % me], wanted, sysm.dep[me][d], z3.Not(asked)))
+        if kindme != 'aggregate':
+            g2['attempted'] = z3.Or(g['attempted'], decide, obs.get('spawn_failed', me))
+        if not self.watch:
+            alive2 = S2['alive.%d' % me]
+            idle = []
+            for kind in own_kinds:
+                wanted = z3.Or([g2['seen.%s.%s' % (kind, r)] for r in reqs])
+                if kindme == 'aggregate':
+                    allok = z3.And([z3.Implies(sysm.dep[me][d], word[(d, kind)]) for d in range(me)] + [T])
+                    idle.append(z3.And(alive2, wanted, allok, z3.Not(g2['acked.%s' % kind])))
+                else:
+                    allok = z3.And([z3.Implies(sysm.dep[me][d], z3.And(word[(d, 'Build')], word[(d, 'Service')])) for d in range(me)] + [T])
+                    idle.append(z3.And(alive2, wanted, allok, z3.Not(g2['attempted'])))
+            g2['idle_although_ready'] = z3.Or(idle + [F])
         # requests only go to declared dependencies
         for d in range(sysm.n):
             if d == me:
